@@ -431,14 +431,17 @@ where
         let maybe_pdu = if let Some(ref mut unreach_builder) =
             self.withdrawals
         {
-            let mut split_at = 0;
+            // If the threshold is never crossed, all withdrawals go into
+            // this PDU. Always split off at least one NLRI, otherwise the
+            // remainder never shrinks.
+            let mut split_at = unreach_builder.withdrawals.len();
             if !unreach_builder.withdrawals.is_empty() {
                 let mut compose_len = 0;
                 for (idx, w) in unreach_builder.withdrawals.iter().enumerate()
                 {
                     compose_len += w.compose_len();
                     if compose_len > 4000 {
-                        split_at = idx;
+                        split_at = std::cmp::max(idx, 1);
                         break;
                     }
                 }
@@ -459,6 +462,17 @@ where
         // Bit of a clumsy workaround as we can not return Some(self) from
         // within the if let ... self.attributes.get_mut above
         if let Some(pdu) = maybe_pdu {
+            // All withdrawals have been split off: drop the emptied
+            // MP_UNREACH_NLRI builder, and the remainder altogether if
+            // nothing else is left in it.
+            if self.withdrawals.as_ref().is_some_and(|w| w.is_empty()) {
+                self.withdrawals = None;
+            }
+            if self.announcements.is_none() && self.withdrawals.is_none()
+                && self.attributes.is_empty()
+            {
+                return (pdu, None)
+            }
             return (pdu, Some(self))
         }
 
@@ -495,7 +509,7 @@ where
         let maybe_pdu = if let Some(ref mut reach_builder) =
             self.announcements
         {
-            let mut split_at = 0;
+            let mut split_at = reach_builder.announcements.len();
 
             let other_attrs_len = self.attributes.bytes_len();
             let limit = Self::MAX_PDU 
@@ -510,7 +524,7 @@ where
                     for (idx, a) in reach_builder.announcements.iter().enumerate() {
                         compose_len += a.compose_len();
                         if compose_len > limit {
-                            split_at = idx;
+                            split_at = std::cmp::max(idx, 1);
                             break;
                         }
                     }
@@ -531,6 +545,11 @@ where
             }
         ;
         if let Some(pdu) = maybe_pdu {
+            // All announcements went into this PDU: the attributes went
+            // with them and there is nothing left to send.
+            if self.announcements.as_ref().is_some_and(|a| a.is_empty()) {
+                return (pdu, None)
+            }
             return (pdu, Some(self))
         }
 
